@@ -6,3 +6,4 @@ import BromeliaVerif.Properties.C01
 import BromeliaVerif.Properties.C02
 import BromeliaVerif.Properties.C03
 import BromeliaVerif.Properties.C10
+import BromeliaVerif.Properties.C09
